@@ -2438,7 +2438,8 @@ impl TypeIdentifier {
         type_consistency: &TypeConsistencyEnforcementQosPolicy,
     ) -> bool {
         match self {
-            TypeIdentifier::TkNone => todo!(),
+            // Not a type: a type identifier received from a remote participant can still hold it
+            TypeIdentifier::TkNone => false,
             TypeIdentifier::TkBoolean => matches!(other, TypeIdentifier::TkBoolean),
             TypeIdentifier::TkByteType => matches!(
                 other,
@@ -2617,9 +2618,11 @@ impl TypeIdentifier {
                 }
                 _ => false,
             },
-            TypeIdentifier::TiPlainMapSmall { map_sdefn: _ } => todo!(),
-            TypeIdentifier::TiPlainMapLarge { map_ldefn: _ } => todo!(),
-            TypeIdentifier::TiStronglyConnectedComponent { sc_component_id: _ } => todo!(),
+            // Maps and strongly connected components are not supported. They can be present in the
+            // type object of a remote participant so they are reported as not assignable
+            TypeIdentifier::TiPlainMapSmall { map_sdefn: _ } => false,
+            TypeIdentifier::TiPlainMapLarge { map_ldefn: _ } => false,
+            TypeIdentifier::TiStronglyConnectedComponent { sc_component_id: _ } => false,
             TypeIdentifier::EkComplete { .. } => matches!(
                 other,
                 TypeIdentifier::EkComplete { .. }
@@ -2646,7 +2649,7 @@ impl TypeIdentifier {
                     | TypeIdentifier::TkInt64Type
                     | TypeIdentifier::TkUint64Type
             ),
-            TypeIdentifier::Default { extended_type: _ } => todo!(),
+            TypeIdentifier::Default { extended_type: _ } => false,
         }
     }
 }
